@@ -59,6 +59,10 @@ def run(chk, replay=None):
         "tokens than the collateral inputs: both behaviours are accepted there (counts in free_cases_observed)",
         "grid amounts are also replayed scaled by 1000003 and 2^58 (invariant Homogeneous), and 64-bit fees at "
         "the boundary classes ceil(fee*pct/100)-1, +0, +1 (invariant ThresholdExact), computed with math/big",
+        "C32 states what an accepted transaction must satisfy: a missing failure is always a disagreement; a surplus "
+        "failure is one only when it is one of the four stated conditions mis-evaluated on the plain encoding. "
+        "Whether an ada-only value written as [coin, {}] is accepted as collateral, and rule functions failing for "
+        "unrelated reasons, are recorded under observed_outside_the_property and never alarm",
         "the rule list is observed entry by entry (only the four collateral error types are read); the rest of "
         "the transaction is not made valid for the other rules",
     ]
